@@ -1,6 +1,6 @@
 // ---- legality layer over the (here uninterpreted) check predicate ----
 /// legal position: well-formed and the side that is NOT to move is not in check
-pub open spec fn legal_pos(v: Pos) -> bool { board_wf(v) && !in_check(v, (1 - v.turn) as u32) }
+pub open spec fn legal_pos(v: Pos) -> bool { board_wf(v) && clocks_ok(v) && !in_check(v, (1 - v.turn) as u32) }
 pub open spec fn succ_of(v: Pos, m: Move) -> Pos {
     rules_succ(v, f_source_square(m.bits), f_target_square(m.bits), f_promotion_piece(m.bits))
 }
@@ -25,3 +25,10 @@ pub proof fn lemma_kings_preserved(v: Pos, m: Move)
         lemma_piece_at_some(me, sqm(src));
     }
 }
+/// board_wf is an invariant of play.  ASSUMED on the Verus side; DISCHARGED by the Kani harness `rules::wf_preserved`
+/// (kani/rules.rs) over the same predicate text compiled as Rust by tools/spec2rust.py — full symbolic domain, loop-free.
+#[verifier::external_body]
+pub proof fn lemma_wf_preserved(v: Pos, m: Move)
+    requires board_wf(v), clocks_ok(v), move_wf(v, m), no_king_capture(v, m)
+    ensures board_wf(succ_of(v, m))
+{}
